@@ -3,6 +3,7 @@
      map_target_is_a_set        whatever doc[key] / doc[key] = v / del doc[key] operate on is an attribute set
      map_through_*              assert / let / parenthesis wrappers hand on to their body
      map_wrappers_transparent   a stack of such wrappers of any height around a set yields that set
+     targets_agree_under_lambda the same under a lambda head — the package idiom `{ pkgs }: … { … }`: both walks return the set
      targets_agree_on_wrappers  … and it is the set the CLI's traversal (Dyn/TargetGen.v, regenerated) finds: text edits and mapping edits address
                                 the same set through such stacks (C14: "text and mapping agree") *)
 From Coq Require Import List Bool Arith Lia.
@@ -136,9 +137,51 @@ Proof.
   intros HL Hr HD Hf Hok. rewrite (map_wrappers_transparent ws r sc v st HL Hr HD Hf Hok).
   symmetry. apply target_wrappers_transparent; assumption.
 Qed.
+
+(* ---- under a lambda head (the package idiom `{ pkgs }: … { … }`) ---- *)
+Theorem map_through_lambda f t o sc v st :
+  w_cls w t = CFunDef -> w_output w t = Some o -> w_cls w o <> CCall -> existsb (w_eqb w t) v = false -> scopes_okw t sc st ->
+  map_target w (S f) t sc (v, st) = try_valueerror N store (map_target w f o (chain_after t sc st)) (raiseV N store) (t :: v, st).
+Proof.
+  intros Hc Ho Hn Hv Hs. enter_map sc Hv Hs; rewrite Hc, Ho; unfold is_cls; destruct (w_cls w o); try congruence; reflexivity.
+Qed.
+Lemma plain_not_call_not_set x c : plain_wrapper N (w_cls w) (w_body w) (w_value w) x c -> w_cls w x <> CCall /\ w_cls w x <> CSet.
+Proof. intros [[H _]|[[H _]|[H _]]]; rewrite H; split; discriminate. Qed.
+Theorem targets_agree_under_lambda t ws r sc v st :
+  w_cls w t = CFunDef -> w_output w t = Some (hd r ws) ->
+  linked N (w_cls w) (w_body w) (w_value w) ws r -> w_cls w r = CSet -> NoDup (t :: ws ++ [r]) -> (forall x, In x (t :: ws ++ [r]) -> ~ In x v) ->
+  (forall x, In x (t :: ws ++ [r]) -> scopes_okw x sc st) ->
+  fst (map_target w (S (S (List.length ws))) t sc (v, st)) = RVal r /\ fst (target w (S (S (List.length ws))) t sc (v, st)) = RVal r.
+Proof.
+  intros Hc Ho HL Hr HD Hfresh Hok.
+  assert (Hv : existsb (w_eqb w t) v = false) by (apply (existsb_false_notin N (w_eqb w) (w_eqb_spec w)), Hfresh; left; reflexivity).
+  assert (Hk : scopes_okw t sc st) by (apply Hok; left; reflexivity).
+  inversion HD as [|? ? Hnotin HD']; subst.
+  assert (Hfresh' : forall x, In x (ws ++ [r]) -> ~ In x (t :: v)).
+  { intros x Hx [Hxt|Hxv]; [subst; contradiction|]. apply (Hfresh x); [right; exact Hx|exact Hxv]. }
+  assert (Hhead : w_cls w (hd r ws) <> CCall).
+  { destruct ws as [|x rest]; cbn [hd]; [rewrite Hr; discriminate|]. destruct HL as [Hw _]. apply (plain_not_call_not_set _ _ Hw). }
+  split.
+  - rewrite (map_through_lambda _ t (hd r ws) sc v st Hc Ho Hhead Hv Hk).
+    assert (Hsome : exists c, chain_after t sc st = Some c).
+    { unfold chain_after. destruct sc as [c|]; [exists c; reflexivity|]. destruct Hk as [c Hc']. rewrite Hc'. exists c. reflexivity. }
+    destruct Hsome as [c Hc']. rewrite Hc'. unfold try_valueerror.
+    rewrite (map_wrappers_transparent ws r (Some c) (t :: v) st HL Hr HD' Hfresh'); [reflexivity|]. intros y Hy. exact I.
+  - destruct ws as [|x rest].
+    + cbn [hd List.length] in *. unfold target.
+      rewrite (through_lambda_set N (w_eqb w) (wSC w) (w_truthy w) store (w_cls w) (w_body w) (w_value w) (w_output w) (w_argument w) (w_strip w)
+                 (w_supports w) (w_scopes w) (w_set_ctx w) (w_attach w) (w_ident_value w) 1 t r sc v st Hc Ho Hr Hv Hk). reflexivity.
+    + cbn [hd] in *. destruct (plain_not_call_not_set x (hd r rest) (proj1 HL)) as [Hn1 Hn2]. unfold target.
+      rewrite (through_lambda N (w_eqb w) (wSC w) (w_truthy w) store (w_cls w) (w_body w) (w_value w) (w_output w) (w_argument w) (w_strip w)
+                 (w_supports w) (w_scopes w) (w_set_ctx w) (w_attach w) (w_ident_value w) (S (List.length (x :: rest))) t x sc v st Hc Ho Hn1 Hn2 Hv Hk).
+      assert (Hw : target w (S (List.length (x :: rest))) (hd r (x :: rest)) sc (t :: v, st) = (RVal r, (r :: rev (x :: rest) ++ t :: v, st))).
+      { apply target_wrappers_transparent; try assumption. intros y Hy. apply Hok. right. exact Hy. }
+      cbn [hd] in Hw. unfold target in Hw. unfold try_valueerror. rewrite Hw. reflexivity.
+Qed.
 End W.
 
 Definition map_table_run (tb : table) (exprs : list nat) : res nat * nat :=
   let '(r, (_, v)) := map_target_top (table_world tb) (S (S (List.length (t_cls tb)))) exprs ([], 0) in (r, v).
 Print Assumptions map_target_is_a_set.
 Print Assumptions targets_agree_on_wrappers.
+Print Assumptions targets_agree_under_lambda.
